@@ -20,8 +20,10 @@ TYP = {
     "Union_int_str": "Union[int, str]", "Dotted": "np.ndarray", "Any": "Any", "Opt_Any": "Optional[Any]",
     "Lit3u": "Literal['b', 'a', 'c']",
     "Lit2": "Literal['utf_8', 'v1']", "Opt_Lit2": "Optional[Literal['utf_8', 'v1']]",
+    "LitP": "Literal['channels-first', 'channels last', 'v1.2']", "Opt_LitP": "Optional[Literal['channels-first', 'channels last', 'v1.2']]",
 }
-LIT_MEMBERS = {"Lit": ["a", "b"], "Opt_Lit": ["a", "b"], "Lit3u": ["b", "a", "c"], "Lit2": ["utf_8", "v1"], "Opt_Lit2": ["utf_8", "v1"]}
+LIT_MEMBERS = {"Lit": ["a", "b"], "Opt_Lit": ["a", "b"], "Lit3u": ["b", "a", "c"], "Lit2": ["utf_8", "v1"], "Opt_Lit2": ["utf_8", "v1"],
+               "LitP": ["channels-first", "channels last", "v1.2"], "Opt_LitP": ["channels-first", "channels last", "v1.2"]}
 
 NAMES = [["alpha", "dataset_name", "a", "lr"], ["beta", "tfds_dir", "b", "momentum"], ["gamma_", "k", "c", "as_numpy"],
          ["delta", "n_steps", "d", "eps"], ["epsilon", "data_loader", "e", "decay"], ["zeta", "log_dir", "f", "nesterov"],
